@@ -480,6 +480,11 @@ func runC05(c *core.Ctx) {
 
 	c.Clause("D7", func() { runEveryRemoteGroupConsulted(c) })
 
+	// which shard groups a query consults is decided by the inclusive/exclusive range predicates of the metadata
+	// (ShardGroupsByTimeRange = !Deleted && Overlaps): a predicate narrower than its specification leaves shards
+	// that hold data in range out of the mapping without an error (same obligations as C06 D5 / C08 D5)
+	c.Clause("D8", func() { runTimePredicates(c) })
+
 	c.Clause("D4", func() {
 		family := []string{"Float", "Integer", "Unsigned", "String", "Boolean"}
 		check := func(fn string, suffix string, pkgPrefix string, minSwitches int) {
